@@ -233,13 +233,19 @@ Proof.
   - inversion H; subst. repeat split; auto.
 Qed.
 
+Lemma cache_ok_evict l : cache_ok l -> cache_ok (evict l).
+Proof.
+  unfold evict. intros H. destruct (cache_cap <? Z.of_nat (length l)); [|exact H].
+  destruct (oldest l) as [[k ts]|]; [apply cache_ok_remove; exact H | exact H].
+Qed.
+
 Lemma cache_store_spec c s k res :
   let s' := cache_store c s k res in
   br s' = br s /\ zcalls s' = zcalls s /\ ycalls s' = ycalls s /\ spent s' = spent s /\ now s' = now s /\
   (cache_ok (cache s) -> is_co (r_action res) = false -> cache_ok (cache s')).
 Proof.
   unfold cache_store. destruct (cache_on c); cbn; repeat split; auto.
-  intros Hok Hr. constructor; [exact Hr | apply cache_ok_remove; exact Hok].
+  intros Hok Hr. apply cache_ok_evict. constructor; [exact Hr | apply cache_ok_remove; exact Hok].
 Qed.
 
 (* ---------------------------------------------------------------------- *)
